@@ -103,6 +103,13 @@ impl C01 {
                     if lib.write(&mut sw).is_ok() && sw.inner != buf {
                         return Err(format!("SHORT-SINK-DIFFERS sink={} bytes, vec={} bytes", sw.inner.len(), buf.len()));
                     }
+                    // ... and a destination that runs full part-way: success may only be reported if every byte arrived
+                    if !buf.is_empty() {
+                        let mut fd = FullDisk { inner: Vec::new(), cap: (self_n as usize * 7919) % buf.len() };
+                        if lib.write(&mut fd).is_ok() {
+                            return Err(format!("SHORT-SINK-DIFFERS write reported success although the destination ran full after {} of {} bytes", fd.inner.len(), buf.len()));
+                        }
+                    }
                 }
                 Ok(buf)
             }
